@@ -384,6 +384,118 @@ fn run_versioned(ctx: &Ctx, cn: &Cn, samples: &Samples) {
     }
 }
 
+/// The same limits over HTTP/2 (hand-written client, prior knowledge): the body arrives as DATA
+/// frames cut at every point near the limit, with and without a content-length header, with an
+/// empty DATA frame in between.
+fn run_h2(ctx: &Ctx, cn: &Cn) -> Value {
+    use vh::h2raw::*;
+    let d = 16usize;
+    let overrides = [None, Some(3usize), Some(40)];
+    let srv = LiveServer::start(zoo9::api(&overrides), zoo9::ZooCtx::default(), ServerOpts { default_body_max: d, ..Default::default() }).unwrap_or_else(|e| machinery_failure(&e));
+    let exts = [Ext::Raw, Ext::Stream, Ext::Json, Ext::Form];
+    let work: Vec<(Option<usize>, Ext)> = overrides.iter().flat_map(|o| exts.iter().map(move |e| (*o, *e))).collect();
+    let requests = AtomicU64::new(0);
+    par_for(work.len(), 6, 0, |wi| {
+        let (o, ext) = work[wi];
+        let l = o.unwrap_or(d);
+        let tag = o.map(|x| x.to_string()).unwrap_or_else(|| "none".into());
+        let path = format!("/lim/{tag}/{}", ext.name());
+        let op = format!("lim_{tag}_{}", ext.name());
+        let Ok(mut conn) = connect_plain(srv.addr) else { machinery_failure("h2 connect") };
+        let mut sid = 1u32;
+        let mut ns: Vec<usize> = (l.saturating_sub(2)..=l + 3).collect();
+        ns.extend([0, 1, 2 * l + 1, 1000, 60_000]);
+        ns.sort();
+        ns.dedup();
+        for n in ns {
+            let Some((body, want)) = body_of(ext, n, l) else { continue };
+            let mut comps: Vec<Vec<usize>> = vec![vec![n]];
+            if n >= 2 && n <= l + 3 {
+                comps.extend(compositions(n, 3).into_iter().filter(|c| c.len() == 2 || c[0] + c[1] == l || c[0] == 1).take(60));
+            }
+            if n == 1000 {
+                comps.push(vec![l, l, 1000 - 2 * l]);
+                comps.push(vec![1, 999]);
+            }
+            for comp in &comps {
+                for (with_cl, empty_between) in [(false, false), (true, false), (false, true)] {
+                    requests.fetch_add(1, Ordering::Relaxed);
+                    cn.requests.fetch_add(1, Ordering::Relaxed);
+                    if sid > 60_000 || conn.eof {
+                        conn = match connect_plain(srv.addr) { Ok(c) => c, Err(_) => machinery_failure("h2 reconnect") };
+                        sid = 1;
+                    }
+                    let id = sid;
+                    sid += 2;
+                    let cl = n.to_string();
+                    let ct = ext.content_type();
+                    let mut hdrs: Vec<(&str, &str)> = vec![("content-type", &ct)];
+                    if with_cl {
+                        hdrs.push(("content-length", &cl));
+                    }
+                    let mut io_ok = conn.send_headers(id, "PUT", &path, &hdrs, n == 0).is_ok();
+                    let mut pos = 0;
+                    for (i, len) in comp.iter().enumerate() {
+                        if n == 0 {
+                            break;
+                        }
+                        if empty_between && i > 0 {
+                            io_ok &= conn.send_data(id, &[], false).is_ok();
+                        }
+                        // a refused stream may already be closed: stop sending into it
+                        io_ok &= conn.send_data(id, &body[pos..pos + len], i + 1 == comp.len()).is_ok();
+                        pos += len;
+                    }
+                    let r = conn.read_response(id, T, &mut |s, dd| tcp_timeout(s, dd));
+                    let max_seen = srv.server().app_private().max_seen.lock().unwrap().get(&op).copied().unwrap_or(0) as usize;
+                    let mut why: Vec<&str> = vec![];
+                    match &r {
+                        Err(_) if !io_ok => {} // the server tore the connection down while we were still sending an oversized body
+                        Err(_) => why.push("no response over HTTP/2"),
+                        Ok(resp) => {
+                            if n <= l {
+                                let j: Value = serde_json::from_slice(&resp.body).unwrap_or(Value::Null);
+                                let intact = match ext {
+                                    Ext::Raw | Ext::Stream => j["len"] == want["len"] && j["fnv"] == want["fnv"] && j["limit"] == want["limit"],
+                                    _ => j == want,
+                                };
+                                if resp.status != Some(200) {
+                                    why.push("body within the limit refused");
+                                } else if !intact {
+                                    why.push("body within the limit not delivered intact (or wrong effective limit)");
+                                }
+                            } else if resp.status == Some(200) {
+                                why.push("body over the limit accepted");
+                            } else if !resp.reset && !matches!(resp.status, Some(s) if (400..500).contains(&s)) {
+                                why.push("body over the limit not answered with 4xx");
+                            }
+                        }
+                    }
+                    if max_seen > l {
+                        why.push("handler observed more body bytes than the limit");
+                    }
+                    if n <= l {
+                        cn.within_limit.fetch_add(1, Ordering::Relaxed);
+                    } else {
+                        cn.over_limit.fetch_add(1, Ordering::Relaxed);
+                    }
+                    if !why.is_empty() {
+                        ctx.report(Violation {
+                            sig: json!({"kind":"body_limit","extractor": ext.name(), "why": why, "has_override": o.is_some(), "override_below_default": o.map(|x| x < d).unwrap_or(false), "frames": comp.len().min(3), "framing": "http2"}),
+                            case: json!({"kind":"live_request","server_default": d, "override": o, "extractor": ext.name(), "body_len": n, "framing": "http2", "chunks": comp, "content_length_header": with_cl, "empty_data_frame_between": empty_between}),
+                            expected: json!({"effective_limit": l, "outcome": if n <= l {"200, intact"} else {"4xx"}, "bytes_seen_by_handler_at_most": l}),
+                            observed: json!({"response": match &r { Ok(x) => json!({"status": x.status, "reset": x.reset, "body": String::from_utf8_lossy(&x.body[..x.body.len().min(300)])}), Err(e) => json!(e) }, "max_bytes_seen_by_handler": max_seen}),
+                        });
+                        srv.server().app_private().max_seen.lock().unwrap().insert(op.clone(), 0);
+                        conn.eof = true;
+                    }
+                }
+            }
+        }
+    });
+    json!({"requests": requests.load(Ordering::Relaxed), "rule": "D=16, O in {none, 3, 40} x {untyped, streaming, JSON, url-encoded}: n around L and {0, 1, 2L+1, 1000, 60000} as DATA frames cut near the limit, with / without content-length, with an empty DATA frame in between; hand-written HTTP/2 client"})
+}
+
 fn main() {
     let args = parse_args();
     quiet_panics();
@@ -396,7 +508,9 @@ fn main() {
         Ctx::replay_and_exit(&args, level, "E2-live", |ctx, case| {
             let d = case["server_default"].as_u64().unwrap() as usize;
             let o = case["override"].as_u64().map(|x| x as usize);
-            if case["extractor"] == json!("versioned") {
+            if case["framing"] == json!("http2") {
+                run_h2(ctx, &cn);
+            } else if case["extractor"] == json!("versioned") {
                 run_versioned(ctx, &cn, &Samples::new(0));
             } else {
                 run_config(ctx, d, &[o], &cn, &Samples::new(0));
@@ -409,7 +523,9 @@ fn main() {
     let overrides: Vec<Option<usize>> = ctx.tier.pick(vec![None, Some(0), Some(3), Some(40), Some(200)], vec![None, Some(0), Some(3), Some(16), Some(40), Some(200)]);
     par_for(defaults.len(), defaults.len(), 0, |i| run_config(&ctx, defaults[i], &overrides, &cn, &samples));
     run_versioned(&ctx, &cn, &samples);
+    let h2 = run_h2(&ctx, &cn);
     let cov = json!({
+        "http2_slice": h2,
         "evaluations": cn.requests.load(Ordering::Relaxed),
         "distinct_nontrivial": cn.over_limit.load(Ordering::Relaxed),
         "rule": "configurations = server default D x endpoint override O (incl. overrides below and above the default, none) x extractor {TypedBody JSON, TypedBody url-encoded, UntypedBody, StreamingBody, MultipartBody}; effective limit L = O or else D. For every body length n in 0..=L+8 and {2L+1, 10L+3, 1000, 100000} (a valid document of exactly n bytes per extractor): content-length framing, one chunk, and - near the limit (thorough: for every n <= L+3) - every composition of n into 2 and 3 chunks; near the limit also requests that declare both Content-Length (0, 1, n, L, 10n) and Transfer-Encoding: chunked in either header order; for StreamingBody additionally paced chunks (chunk i+1 written after the handler consumed chunk i). Oracle: n <= L -> 200 and the echo (value / length + FNV checksum / parts) equals the client's and the handler reports effective limit L; n > L -> 4xx; the largest running byte total any handler reported is <= L. distinct_nontrivial = requests with n > L.",
